@@ -4,25 +4,16 @@ import (
 	"fmt"
 
 	sdk "github.com/cosmos/cosmos-sdk/types"
-	"verifharness/enga"
 	"verifharness/sim"
 )
 
 func main() {
-	g := sim.DefaultCfg(1, 1)
-	g.Vals[0].Power = 5
-	g.Vals[0].Locking = sdk.NewCoins(sdk.NewCoin("btc", sim.Theta.MulRaw(5)))
-	g.LockingParams.UnlockDuration = 2e9
-	g.LockingParams.ExitingDuration = 5e9
-	w, err := enga.NewWorld(g)
+	n, err := sim.NewChain(sim.DefaultCfg(1, 1))
 	if err != nil {
 		panic(err)
 	}
-	for _, b := range []enga.ABlock{{Events: []enga.Event{{Kind: "req:unlock", N: 1}}}, {}, {}, {}, {}} {
-		r := w.Run(b)
-		fmt.Println(b.String(), "err", r.Err, "stage", r.Stage, "ethOK", r.EthOK)
-		if r.Finalize != nil {
-			fmt.Println("   ", r.Finalize.TxResults[0].Code, r.Finalize.TxResults[0].Log)
-		}
+	reg := n.App.AppCodec().InterfaceRegistry()
+	for _, u := range reg.ListImplementations(sdk.MsgInterfaceProtoName) {
+		fmt.Println(u, n.App.MsgServiceRouter().HandlerByTypeURL(u) != nil)
 	}
 }
